@@ -15,7 +15,7 @@ class AbstractOnlineInterpreter(AbstractInterpreter):
         # reset sub-specs
         for key in self.ast.var_subspec_dict:
             node = self.ast.var_subspec_dict[key]
-            self.resetVisitor.visitAst(node, self.online_operator_dict)
+            self.resetVisitor.visit(node, self.online_operator_dict)
 
         # reset spec
         self.resetVisitor.visitAst(self.ast, self.online_operator_dict)
